@@ -397,7 +397,8 @@ class RadiDict:
                 else:
                     c0 = route[i]
                     for ic, c in enumerate(idx):
-                        if c == c0:
+                        # TOKEN in `idx` marks the param child, it is never a literal key
+                        if c == c0 and c != TOKEN:
                             kidx = ic; break  # found!
 
                 if kidx is None:  # not found
